@@ -1867,6 +1867,56 @@ def o_mpolyval(mir, tier, seed):
     return dict(theory='structural (every configuration run concretely); the members\' own validation, relate and the matrix accessors uninterpreted', functions=['Validation for MultiPolygon: visit_validation', 'its forwarding closure'], paths=npaths, status=st, info=info, model=None, replay=('polygon_validation', ''))
 
 
+# ---- C06: the ring centroid formula itself, over the reals
+
+@obligation('C06', 'ring_centroid_formula_real', 'CentroidOperation::add_ring for closed rings of 4-6 coordinates with ANY real coordinates and non-zero area A (A = half the shoelace sum, uninterpreted value constrained by that equation): exactly one two-dimensional contribution, weight |A|, whose centre c satisfies the textbook identities 6A c.x = sum (x_i + x_(i+1)) (x_i y_(i+1) - x_(i+1) y_i) and likewise for y - i.e. the shift to the first vertex changes nothing; for a triangle ring c is the mean of the vertices')
+def o_ring_centroid(mir, tier, seed):
+    from mir2smt import SliceIter
+    T = RealTheory()
+    C = r'centroid::<impl at geo/src/algorithm/centroid\.rs:44\d:1: [^>]*>::'
+    fn = mir.find('geo', C + 'add_ring')
+    bad, assume, npaths = [], [], 0
+
+    def lines(ip, d):
+        cs = deref(deref(d[0])[0])
+        return SliceIter([[cs[i], cs[i + 1]] for i in range(len(cs) - 1)])
+    extra = dict(EXTRA)
+    extra[r'<geo_types::Line<\w+> as (algorithm::)?map_coords::MapCoords<\w+, \w+>>::map_coords::<.*>'] = ('geo', r'map_coords::<impl at geo/src/algorithm/map_coords\.rs:\d+:1: \d+:61>::map_coords', r'_1: &geo_types::Line<')
+    extra[r'geo_types::Line::<\w+>::start_point'] = ('geo_types', r'line::<impl at [^>]*>::start_point')
+    extra[r'geo_types::Line::<\w+>::end_point'] = ('geo_types', r'line::<impl at [^>]*>::end_point')
+    extra[r'<geo_types::Point<\w+> as (algorithm::)?map_coords::MapCoords<\w+, \w+>>::map_coords::<.*>'] = ('geo', r'map_coords::<impl at geo/src/algorithm/map_coords\.rs:\d+:1: \d+:62>::map_coords', r'_1: &geo_types::Point<')
+    for n in ((4, 5) if tier == 'quick' else (4, 5, 6)):
+        pts = [coord(T, 'r%d_%d_' % (n, i)) for i in range(n - 1)]
+        cs = pts + [pts[0]]
+        ring = [[list(p) for p in cs]]
+        A = T.var('ring_area_%d' % n)
+        shoelace = sum(cs[i][0] * cs[i + 1][1] - cs[i + 1][0] * cs[i][1] for i in range(n - 1))
+        assume += [2 * A == shoelace, A != 0]
+        rec = []
+
+        def add_centroid(ip, d, pc, rec=rec):
+            rec.append((pc, deref(d[1]), deref(d[2]), d[3]))
+            return []
+        add_centroid.wants_pc = True
+        uf = {'re:geo_types::LineString::<\\w+>::lines': lines, 're:(algorithm::area::)?get_linestring_area::<\\w+>': lambda ip, d, A=A: A,
+              're:CentroidOperation::<\\w+>::add_centroid': add_centroid,
+              're:<geo_types::LineString<\\w+> as (algorithm::)?dimensions::HasDimensions>::dimensions': lambda ip, d: ('halt', 'zero-area ring'),
+              're:<geo_types::LineString<\\w+> as Index<usize>>::index': lambda ip, d: deref(d[0])[0][d[1]]}
+        ip = Interp(mir, T, extra, uf)
+        outs = ip.call_fn(fn, [Ref(lambda: ['op']), Ref(lambda ring=ring: ring)], z3.BoolVal(True))
+        npaths += len(outs)
+        sx = sum((cs[i][0] + cs[i + 1][0]) * (cs[i][0] * cs[i + 1][1] - cs[i + 1][0] * cs[i][1]) for i in range(n - 1))
+        sy = sum((cs[i][1] + cs[i + 1][1]) * (cs[i][0] * cs[i + 1][1] - cs[i + 1][0] * cs[i][1]) for i in range(n - 1))
+        bad.append(z3.Not(z3.Or([pc for pc, _, _, _ in rec])))
+        for pc, dim, c, w in rec:
+            ok = [z3.BoolVal(variant_is(dim, 'TwoDimensional')), 6 * A * c[0] == sx, 6 * A * c[1] == sy, w == z3.If(A >= 0, A, -A)]
+            if n == 4:
+                ok += [3 * c[0] == pts[0][0] + pts[1][0] + pts[2][0], 3 * c[1] == pts[0][1] + pts[1][1] + pts[2][1]]
+            bad.append(z3.And(pc, z3.Not(z3.And(ok))))
+    st, info, model = check_unsat('ring_centroid_formula_real', assume + [z3.Or(bad)], timeout_s=20)
+    return dict(theory='Real (nonlinear, degree 4); the ring area an uninterpreted value tied to the shoelace sum', functions=['CentroidOperation::add_ring', 'its fold closure', 'MapCoords for Line', 'Line::determinant'], paths=npaths, status=st, info=info, model=None, replay=('centroid_contributions', ''))
+
+
 # ---- C05 kernels
 
 @obligation('C05', 'line_determinant_int', 'for ALL integers: Line::determinant() = start.x*end.y - start.y*end.x (the shoelace term)')
